@@ -110,6 +110,9 @@ class RSTransport(asyncio.Protocol):
     # API exposed to session
     async def write(self, message):
         await self._can_send.wait()
+        # Several writers are released together; an earlier one may have refilled the send buffer
+        while not self._can_send.is_set():
+            await self._can_send.wait()
         if not self.is_closing():
             framed_message = self._framer.frame(message)
             self._asyncio_transport.write(framed_message)
